@@ -5,7 +5,7 @@ use crate::core::*;
 use crate::model::calendar as cal;
 use crate::model::instant::*;
 use super::diff::*;
-use astrolabe::{Date, DateTime, DateUtilities};
+use astrolabe::{Date, DateTime, DateUtilities, Offset, OffsetUtilities};
 use serde_json::{json, Value};
 
 pub const OPS: [(&str, i64, i64); 4] = [("add_months", 1, 1), ("sub_months", -1, 1), ("add_years", 1, 12), ("sub_years", -1, 12)];
@@ -253,7 +253,7 @@ pub fn run(ctx: &Ctx) -> PropResult {
             }
             if n % 7 == (idx % 7) as u32 && day >= cal::MIN_DAY + 2 && day <= cal::MAX_DAY - 2 {
                 // (two-day margin: a value whose local time is outside the range cannot carry the offset)
-                let off = gen_offset(rng);
+                let off = gen_offset_any(rng);
                 judge_datetime(rec, day, rng.range_i128(0, D - 1), off, (n % 4) as usize, n);
             }
         }
@@ -281,7 +281,7 @@ pub fn run(ctx: &Ctx) -> PropResult {
         judge_date(rec, day, op, n);
         if idx % 3 == 0 {
             let inner = day.clamp(cal::MIN_DAY + 2, cal::MAX_DAY - 2);
-            judge_datetime(rec, inner, rng.range_i128(0, D - 1), gen_offset(rng), op, n);
+            judge_datetime(rec, inner, rng.range_i128(0, D - 1), gen_offset_any(rng), op, n);
         }
     }));
     // every case on a brand-new thread: the shift is the first one that thread ever performs (per-thread memo state
@@ -298,11 +298,43 @@ pub fn run(ctx: &Ctx) -> PropResult {
         if idx % 8 < 6 {
             judge_date(rec, day, op, n);
         } else {
-            judge_datetime(rec, day.clamp(cal::MIN_DAY + 2, cal::MAX_DAY - 2), rng.range_i128(0, D - 1), gen_offset(rng), op, n);
+            judge_datetime(rec, day.clamp(cal::MIN_DAY + 2, cal::MAX_DAY - 2), rng.range_i128(0, D - 1), gen_offset_any(rng), op, n);
         }
     }).fresh(1));
     // call sequences: one shift, then shifts of neighbouring starts / other counts reaching the same or an adjacent
     // target month, a shift that must fail in between, and the first shift again
+    // receivers whose local reading lies beyond a range end (outward offset): a shift by 0 or towards the inside
+    // targets a representable date and must not panic; time of day and offset stay
+    wls.push(Workload::cases("receivers_with_an_out_of_range_local_reading", ctx.count(8_000, 200_000), |rec, idx, rng| {
+        rec.eval();
+        let Some((a, i, off, high)) = super::diff::outward_value(rng) else {
+            rec.bin("outward/could-not-build(other-property)");
+            return;
+        };
+        rec.bin("outward/local-reading-beyond-the-range-end");
+        // inward operation: at the high end sub_*, at the low end add_*
+        let op = match (high, idx % 2) { (true, 0) => 1usize, (true, _) => 3, (false, 0) => 0, (false, _) => 2 };
+        let (name, dir, mult) = OPS[op];
+        let n = rng.below(4) as u32;
+        let day = i.div_euclid(D) as i64;
+        let t_utc = cal::shift_months(day, dir * mult * n as i64) as i128 * D + i.rem_euclid(D);
+        let lday = (i + off as i128 * NS).div_euclid(D) as i64;
+        let t_loc = cal::shift_months(lday, dir * mult * n as i64) as i128 * D + (i + off as i128 * NS).rem_euclid(D) - off as i128 * NS;
+        rec.api(name);
+        rec.nontrivial(hash_i128s(&[i, off as i128, op as i128, n as i128, 0x0505]));
+        let r = trap(|| match op { 0 => a.add_months(n), 1 => a.sub_months(n), 2 => a.add_years(n), _ => a.sub_years(n) });
+        let wit = |obs: Value| json!({"receiver_utc": show(i), "offset": off, "note": "local reading beyond the range end", "call": format!("{}({})", name, n), "model_result_utc (UTC-date reading / local-date reading)": [show(t_utc), show(t_loc)], "observed": obs});
+        match r {
+            Err(p) => rec.violation(format!("C05|outward-receiver|{}|panic-when-representable|{},{}", name, p.class, p.site()), || wit(p.to_json())),
+            Ok(res) => {
+                let got = trap(|| (read(&res), res.get_offset()));
+                let ok = matches!(got, Ok((g, o)) if (g == t_utc || g == t_loc) && o == Offset::Fixed(off));
+                if !ok {
+                    rec.violation(format!("C05|outward-receiver|{}|wrong-instant-or-offset", name), || wit(json!(trap(|| super::diff::utc_reads(&res)).unwrap_or_default())));
+                }
+            }
+        }
+    }));
     wls.push(Workload::cases("sibling_call_sequences", ctx.count(40_000, 1_500_000), |rec, idx, rng| {
         let day = match rng.below(3) {
             0 => rng.range_i64(-1500, 1500),
@@ -337,6 +369,7 @@ pub fn run(ctx: &Ctx) -> PropResult {
         if quick { ", quick: days with dom < 28 thinned 6x" } else { "" }
     );
     meta.required_bins = vec![
+        "outward/local-reading-beyond-the-range-end",
         "date-walk/with-judged-steps",
         "sequence/sibling-calls",
         "local-twin/judged", "local-twin/synthetic-fixed-zone", "local-twin/real-zone-with-transitions",
